@@ -14,7 +14,7 @@ use vp_base::tape::{self, Tape};
 pub const RULE: &str = "tape -> kind (CTR 32/64/128 BE/LE, BelT), cipher config, key, IV, start at block 2^w-1-k (k in 0..4) reached by try_seek or \
 set_block_pos+from_core, optional partially consumed block, then <= 6 ops from {apply (len in 0,1,b-1,b,b+1, exactly to the limit, limit+1, several \
 blocks; three apply kinds; dirty output), try_seek near/at/after the end, try_current_pos::<T>, remaining_blocks}; second family: \
-try_apply_keystream_partial on the cores; oracle = fits/doesn't-fit contract + untouched buffers + position model + reference keystream; \
+try_apply_keystream_partial on the cores; third family: core positioned anywhere in the range, remaining_blocks() exact if reported and a fitting request served; oracle = fits/doesn't-fit contract + untouched buffers + position model + reference keystream; \
 non-trivial = at least one request that must be refused and one that ends exactly at the limit or later succeeds; distinct by hash of decoded values";
 
 pub const SIG_F2: &str = "seek-into-last-block";
@@ -69,7 +69,11 @@ pub fn probe_f3(ctx: &Ctx) -> Option<String> {
 }
 
 pub fn check(ctx: &Ctx, t: &mut Tape<'_>, r: &mut Report) -> CheckResult {
-    if t.chance(40) { partial_on_core(ctx, t, r) } else { wrapper_history(ctx, t, r) }
+    match t.byte() {
+        0..=39 => partial_on_core(ctx, t, r),
+        40..=63 => remaining_anywhere(ctx, t, r),
+        _ => wrapper_history(ctx, t, r),
+    }
 }
 
 fn gen_kind_iv<'a>(ctx: &'a Ctx, t: &mut Tape<'_>) -> Option<(StreamKind, &'a Suite, Vec<u8>, Vec<u8>)> {
@@ -323,5 +327,48 @@ fn partial_on_core(ctx: &Ctx, t: &mut Tape<'_>, r: &mut Report) -> CheckResult {
         ensure!(res.is_err(), format!("C11/{SIG_F3}/{ty}"), "try_apply_keystream_partial({n}) with only {k} blocks left succeeded");
         ensure!(o.iter().all(|b| *b == 0xC3), format!("C11/buffer-modified-on-error/{ty}"), "refused request modified the output buffer");
     }
+    Ok(())
+}
+
+/// The remaining-blocks report is exact wherever the instance stands - not only next to the limit -
+/// and a request that fits is served there (the byte-level wrapper consults that report before every
+/// request).
+fn remaining_anywhere(ctx: &Ctx, t: &mut Tape<'_>, r: &mut Report) -> CheckResult {
+    let Some((kind, suite, key, iv)) = gen_kind_iv(ctx, t) else {
+        r.label("config-not-in-this-build");
+        return Ok(());
+    };
+    let f = suite.stream(kind).unwrap();
+    let bs = suite.info.bs;
+    let w = kind.width().unwrap();
+    let lim = limit_blocks(kind);
+    let ty = f.core_type_name();
+    // anywhere in the range (boundaries of bytes and powers of two, random), optionally with the low
+    // 64 bits of the position just below a wrap; at least 8 blocks before the limit
+    let mut blk = gen_block_index(t, w, 8);
+    let low_wrap = t.chance(96);
+    let j = t.idx(6) as u128;
+    if low_wrap && w > 64 && blk >> 64 != 0 {
+        blk = ((blk | u64::MAX as u128) - j).min(lim - 8);
+    }
+    let nblocks = 1 + t.idx(4);
+    let tail = t.idx(bs);
+    r.label("remaining-anywhere");
+    r.label_if(low_wrap && w > 64, "low-word-near-wrap");
+    r.nontrivial = blk >= 1 << 16;
+    r.d(|| format!("{ty} key={} iv={} core at block {blk}: remaining_blocks(), then {nblocks} blocks + {tail} bytes", tape::hex_short(&key), tape::hex_short(&iv)));
+    let c = (suite.keyed)(&key);
+    let model = KsModel::new(c.as_ref(), kind, &iv);
+    let mut core = f.make_core(Ctor::New, &key, &iv).expect("harness: ctor");
+    core.set_block_pos(blk).ok_or_else(|| Violation { sig: format!("C11/not-seekable/{ty}"), msg: "core no longer seekable".into() })?;
+    let truth = lim - blk;
+    if let Some(x) = core.remaining_blocks() {
+        ensure!(x as u128 == truth, format!("C11/remaining-inexact/{ty}"), "remaining_blocks() = {x} at block {blk}, but {truth} blocks are left");
+    }
+    let data = tape::bytes(3, blk as u32 ^ 0x5EED, nblocks * bs + tail);
+    let mut s = core.into_wrapper();
+    let mut o = vec![0xC3u8; data.len()];
+    ensure!(s.try_apply(ApplyKind::Inout, &data, &mut o).is_ok(), format!("C11/in-range-request-refused/{ty}"), "{} bytes at block {blk} ({truth} blocks left) were refused", data.len());
+    ensure_eq_bytes!(o, model.apply_at(blk, 0, &data), format!("C11/keystream-at-position/{ty}"), "{} bytes at block {blk}", data.len());
     Ok(())
 }
